@@ -5,7 +5,7 @@ lattice around them (-1 ms, -few us, 0, +few us, +1 ms)."""
 LATTICE = [-1000, -3, -2, -1, 0, 1, 2, 3, 1000]
 LIFETIMES = [5, 10, 20, 50, 100, 400]
 REPRS = ['uri', 'strlist', 'bytes', 'bytearray', 'memoryview', 'mixed', 'wire', 'wire_mv']
-NACK_REASONS = [0, 50, 100, 150, 151, 255, 256, 65535, 65536, 2 ** 32 - 1, 2 ** 32, 2 ** 64 - 1]
+NACK_REASONS = [0, 50, 100, 150, 151, 255, 256, 65535, 65536, 2 ** 32 - 1, 2 ** 32, 2 ** 64 - 1, 'none']       # 'none': a Nack header without NackReason element = reason None (0)
 V2_VERDICTS = ['PASS', 'ALLOW_BYPASS', 'FAIL', 'SILENCE', 'TIMEOUT']
 V1_VERDICTS = ['PASS', 'ALLOW_BYPASS', 'TRUTHY_STR', 'FAIL', 'SILENCE', 'TIMEOUT', 'EMPTY']
 LP_HDRS = [(0x51, '0000000000000001'), (0x032c, '0100'), (0x0330, '07'), (0x0340, '01'), (0x0344, '0000000000000009'),
@@ -164,6 +164,8 @@ def add_consumer_side(b, rng, fe, n_int, focus='c03', lp_prob=0.1, transparent=F
         if fe == 'v1' and rng.random() < 0.15:
             vs = None
         rec = {'id': iid, 'name': name, 'cbp': cbp, 'life': life, 'te': te, 'vs': vs, 'digest_of': None}
+        if rng.random() < 0.1:
+            rec['param_obj'] = True
         signed = focus == 'c03' and rng.random() < 0.1
         if signed:
             rec['app_param'] = rng.choice([0, 1, 20])
@@ -223,14 +225,14 @@ def add_consumer_side(b, rng, fe, n_int, focus='c03', lp_prob=0.1, transparent=F
                 b.faults += 1
         elif fate == 'nack' and signed:
             ipid = b.pkt({'k': 'interest_as_sent', 'iid': iid})
-            b.rx(tf, ipid, lp={'nack': rng.choice(nack_reasons or [0, 50, 100, 150, 151])})
+            b.rx(tf, ipid, lp={'nack': rng.choice(nack_reasons or [0, 50, 100, 150, 151, 'none'])})
         elif fate == 'nack':
             if not cbp and rng.random() < 0.2:
                 # Interest carrying an implicit digest (of a Data that never arrives); the Nack names it in full
                 rec['digest_of'] = b.pkt({'k': 'data', 'name': list(name), 'content': 70 + b.next_pid, 'sig': 'digest'})
             ipid = b.pkt({'k': 'interest', 'name': name, 'cbp': cbp, 'lifetime': life * 1000 // 1000,
                           'nonce': 1000 + iid, 'digest_of': None})
-            reason = rng.choice(nack_reasons or [0, 50, 100, 150, 151])
+            reason = rng.choice(nack_reasons or [0, 50, 100, 150, 151, 'none'])
             b.rx(tf, ipid, lp={'nack': reason})
             rec['nack_pid'] = ipid
             if rng.random() < 0.3:
@@ -269,6 +271,8 @@ def add_consumer_side(b, rng, fe, n_int, focus='c03', lp_prob=0.1, transparent=F
             kw['digest_of'] = rec['digest_of']
         if rec.get('app_param') is not None:
             kw['app_param'] = rec['app_param']
+        if rec.get('param_obj'):
+            kw['param_obj'] = True
         if rng.random() < 0.12 and rec['life'] >= 20:
             kw['await_delay_us'] = rng.choice([1, 1000, rec['life'] * 250, rec['life'] * 500])
         b.op(rec['te'], 'express', id=rec['id'], name=rec['name'], cbp=rec['cbp'], lifetime=rec['life'],
@@ -355,6 +359,8 @@ def add_producer_side(b, rng, fe, focus='c04', tokens=False, lp_prob=0.1, transp
                 if rng.random() < 0.8:
                     vs = {'verdict': rng.choice(V2_VERDICTS if fe == 'v2' else V1_VERDICTS),
                           'latency_us': rng.choice([0, 0, 1, 1000, 5000])}
+                    if rng.random() < 0.08:
+                        vs['raise'] = rng.choice(['timeout', 'cancel'])     # e.g. a certificate fetch inside it gave up
             replies = []
             if fe == 'v2':
                 for _k in range(pick_weighted(rng, [(0, 20), (1, 60), (2, 20)])):
@@ -402,6 +408,38 @@ def add_producer_side(b, rng, fe, focus='c04', tokens=False, lp_prob=0.1, transp
                 lp = rand_lp(rng)
             op = b.rx(t, pid, lp=lp, transparent=transparent)
             op['_life'] = life
+    # the routing table changes while the validator of an Interest that already arrived is still running
+    if rng.random() < (0.3 if focus == 'c05' else 0.1):
+        slow = [o for o in b.ops if o['op'] == 'attach' and o.get('validator')]
+        rng.shuffle(slow)
+        for a in slow:
+            pfx = a['prefix']
+            cands = []
+            for o in b.ops:
+                if o['op'] != 'rx' or o['at'] < a['at'] or isinstance(o['pkt'], dict) and o['pkt'].get('lp', {}).get('frag'):
+                    continue
+                pid = o['pkt']['pid'] if isinstance(o['pkt'], dict) else o['pkt']
+                spec = b.packets[str(pid)]
+                if spec.get('k') == 'interest' and ('sig' in spec or (fe == 'v2' and 'app_param' in spec)) \
+                        and not spec.get('bad_digest') and spec['name'][:len(pfx)] == pfx:
+                    cands.append((o, spec))
+            if not cands:
+                continue
+            o, spec = rng.choice(cands)
+            a['validator'] = dict(a['validator'], latency_us=rng.choice([2000, 5000]))
+            a['validator'].pop('raise', None)
+            tmid = o['at'] + a['validator']['latency_us'] // 2
+            hid = b.next_hid
+            b.next_hid += 1
+            other = {'verdict': 'FAIL' if a['validator'].get('verdict') in ('PASS', 'ALLOW_BYPASS', 'TRUTHY_STR') else 'PASS',
+                     'latency_us': 0}
+            if len(spec['name']) > len(pfx) and rng.random() < 0.5:
+                b.op(tmid, 'attach', hid=hid, prefix=spec['name'][:len(pfx) + 1], repr='uri', validator=other, replies=[])
+            else:
+                b.op(tmid, 'detach', prefix=pfx, repr='uri')
+                b.op(tmid, 'attach', hid=hid, prefix=pfx, repr='uri', validator=other, replies=[])
+            b.lattice += 1
+            break
     # reply delays relative to the Interest lifetime (lattice around the deadline)
     lifes = [o['_life'] for o in b.ops if o['op'] == 'rx' and '_life' in o]
     long_tail = False
@@ -613,7 +651,9 @@ def gen_c06(rng, seed, tier='quick'):
                              {'nofrag': True, 'token': 'aa'}, {'hdr': [[0x0355, '00']]}, {'hdr': [[0x63, '']]},
                              {'frag': [0, 1]}, {'frag': [1, 1]}, {'frag': [1, None]}, {'frag': [0, None]}, {'frag': [2, 0]},
                              {'frag': [None, 1]}, {'frag': [0, 2], 'hdr': [[0x51, '0000000000000001']]},
-                             {'frag': [0, 1], 'hdr': [[0x51, '0000000000000002']]}])
+                             {'frag': [0, 1], 'hdr': [[0x51, '0000000000000002']]},
+                             # a Nack header around whatever the pool offers (for a Data that is no Nack at all)
+                             {'nack': 150}, {'nack': 'none'}, {'nack': 50, 'token': 'ab'}])
             b.rx(t, bpid, lp=lp)
         b.faults += 1
     # 4. the legitimate packets
@@ -660,6 +700,8 @@ def gen_c10(rng, seed, tier='quick'):
             if isinstance(ref, dict) and 'nack' in ref.get('lp', {}):
                 continue
             lp = {'frag': rng.choice([[0, 2], [1, 2], [2, 5], [None, 3], [1, None], [0, 1], [1, 1], [0, None], [None, 1], [3, 0]])}
+            if rng.random() < 0.25 and b.packets[str(pid)].get('k') == 'data':
+                lp = {'nack': rng.choice([50, 150, 'none'])}       # a Data inside a Nack envelope is no Nack and no Data
             if rng.random() < 0.5:
                 lp['token'] = rand_token(rng)
             if rng.random() < 0.4:
